@@ -520,7 +520,7 @@ CHECKS["C08"] = dict(
              "of any interleaving, then EVERY element of the product of the 8 sets installed in the bucket and probed for the 3 keys (relaxed-memory over-approximation: a relaxed load may "
              "return any value stored to that location); ply: all scores |s| <= MATE0 x plies 0..200 x 0..200, and setBusy on a stored record for every mate score x ply (the record must read back unchanged); "
              "histories: every sequence of up to 6 (8) operations from {12 inserts (three keys, deeper / shallower / same-type records, empty move, no evaluation, mate score, four filler keys), probe k0..k2, "
-             "next generation, clear, setBusy} on one bucket, states (8 words + generation + set of records inserted) deduplicated and restored by writing the words back; "
+             "next generation, clear, setBusy} on one bucket, states (8 words + generation + set of records inserted) deduplicated and restored by writing the words back (third-level states are dealt to the workers, each worker deduplicates its own share: a state reached from two shares is counted and expanded twice, never lost); "
              "index: every Hash value 1..1024 MB, powers of two to 2^20 MB, each minus the tablebase region, in-tree sizes, every multiple of 4 in [512, 9000 (70000)] x all 2^16 key "
              "prefixes x low-bit patterns; real tables: reSize(Hash) + real updateTB for Hash in a boundary list, then hash traffic",
     oracle="histories: after every operation every non-empty slot decodes (key word xor data word) to a key and a record that were handed to insert together, and the real probe of that key returns it; "
